@@ -115,8 +115,8 @@ Fixpoint wcheck (bs : list wb) (ops : list wop) (obs : list Z) : bool :=
   end.
 
 (* ---------------------------------------------------------------- specification (no credits) *)
-Definition wcfg := list (Z * Z * bool * Z).          (* id, configured weight, avail, conn *)
-Definition wc_init (conf : list (Z * Z)) : wcfg := map (fun e => (fst e, snd e, true, 0)) conf.
+Definition wcfg := list (Z * Z * bool * Z).          (* id, weight, avail, conn *)
+Definition wc_init (conf : list (Z * Z)) : wcfg := map (fun e => (fst e, 100 * snd e, true, 0)) conf.   (* weight as stored: x100 *)
 Definition wc_elig (b : Z * Z * bool * Z) : bool := let '(_, w, a, _) := b in a && (0 <? w).
 (* p is eligible and minimises conn/weight:  conn_p * w_b <= conn_b * w_p for every eligible b *)
 Definition minimal_pick (c : wcfg) (p : Z) : bool :=
